@@ -58,6 +58,7 @@ type PKI struct {
 	RSAKey              *rsa.PrivateKey
 	ECDSAKey            *ecdsa.PrivateKey
 	StdClient           gmtls.Certificate // ECDSA client cert under StdCA
+	StdClientUntrusted  gmtls.Certificate // ECDSA client cert under another standard CA
 	RSAGM               gmtls.Certificate // RSA certificate (for the GMSSL client's non-EC check)
 }
 
@@ -179,6 +180,16 @@ func Get() *PKI {
 		ck, _ := ecdsa.GenerateKey(elliptic.P256(), rand.Reader)
 		p.StdClient = mk(leaf(103, &ck.PublicKey, []stdx509.ExtKeyUsage{stdx509.ExtKeyUsageClientAuth}, stdx509.KeyUsageDigitalSignature), ck)
 		p.RSAGM = p.RSA
+		ca2Key, _ := ecdsa.GenerateKey(elliptic.P256(), rand.Reader)
+		ca2Tmpl := &stdx509.Certificate{SerialNumber: big.NewInt(200), Subject: pkix.Name{CommonName: "std CA 2"}, NotBefore: time.Date(2020, 1, 1, 0, 0, 0, 0, time.UTC), NotAfter: time.Date(2030, 1, 1, 0, 0, 0, 0, time.UTC),
+			IsCA: true, BasicConstraintsValid: true, KeyUsage: stdx509.KeyUsageCertSign}
+		ca2DER, _ := stdx509.CreateCertificate(rand.Reader, ca2Tmpl, ca2Tmpl, &ca2Key.PublicKey, ca2Key)
+		ca2, _ := stdx509.ParseCertificate(ca2DER)
+		uk, _ := ecdsa.GenerateKey(elliptic.P256(), rand.Reader)
+		ut := &stdx509.Certificate{SerialNumber: big.NewInt(201), Subject: pkix.Name{CommonName: "std client untrusted"}, NotBefore: time.Date(2020, 1, 1, 0, 0, 0, 0, time.UTC), NotAfter: time.Date(2030, 1, 1, 0, 0, 0, 0, time.UTC),
+			KeyUsage: stdx509.KeyUsageDigitalSignature, ExtKeyUsage: []stdx509.ExtKeyUsage{stdx509.ExtKeyUsageClientAuth}}
+		uder, _ := stdx509.CreateCertificate(rand.Reader, ut, ca2, &uk.PublicKey, ca2Key)
+		p.StdClientUntrusted = mk(uder, uk)
 		pki = p
 	})
 	return pki
